@@ -46,13 +46,64 @@ PERMANENT_S3_ERROR_CODES = frozenset({
 })
 
 
+# Error codes that arrive with a 4xx status but ARE worth retrying.
+TRANSIENT_4XX_ERROR_CODES = frozenset({
+    "RequestTimeout",
+    "RequestTimeoutException",
+    "Throttling",
+    "ThrottlingException",
+    "ThrottledException",
+    "RequestThrottled",
+    "RequestThrottledException",
+    "TooManyRequestsException",
+    "RequestLimitExceeded",
+    "BandwidthLimitExceeded",
+    "PriorRequestNotComplete",
+    "SlowDown",
+    "OperationAborted",
+    "ConditionalRequestConflict",
+})
+
+# SDK-side failures that may go away on retry: transport trouble. Every other
+# BotoCoreError (no credentials, parameter validation, bad region, ...) is
+# raised before anything is sent and will be raised again, identically.
+_TRANSIENT_SDK_ERROR_NAMES = frozenset({
+    "HTTPClientError",
+    "ConnectionError",
+    "IncompleteReadError",
+    "ChecksumError",
+})
+
+
 def is_permanent_s3_error(exc: BaseException) -> bool:
-    """True when an exception is an S3 error that retrying cannot fix."""
+    """True when an exception is an S3 error that retrying cannot fix.
+
+    Beyond the explicit code list: any other 4xx answer of the service (expired
+    token, invalid request / argument, method not allowed, key too long, ...)
+    is the service saying "no" to THIS request - except 404 (kept retryable on
+    purpose, see above), 408 / 429 and the throttling / time-out codes; and
+    SDK errors that are not transport failures. Retrying those six times only
+    made a misconfigured or expired job slower and noisier.
+    """
     response = getattr(exc, "response", None)
-    if not isinstance(response, dict):
+    if isinstance(response, dict):
+        code = str(response.get("Error", {}).get("Code", ""))
+        if code in PERMANENT_S3_ERROR_CODES:
+            return True
+        if code in TRANSIENT_4XX_ERROR_CODES or code in ("404", "NoSuchKey", "408", "429"):
+            return False
+        status = response.get("ResponseMetadata", {}).get("HTTPStatusCode")
+        if isinstance(status, int) and 400 <= status < 500 and status not in (404, 408, 429):
+            return True
         return False
-    code = response.get("Error", {}).get("Code", "")
-    return code in PERMANENT_S3_ERROR_CODES
+    try:
+        from botocore.exceptions import BotoCoreError
+    except ImportError:
+        return False
+    if isinstance(exc, BotoCoreError):
+        names = {klass.__name__ for klass in type(exc).__mro__}
+        return not (names & _TRANSIENT_SDK_ERROR_NAMES)
+    return False
 
 
 class S3ConsistencyHandler:
